@@ -99,14 +99,14 @@ func runExprCase(c *ev.Ctx, id, class string, e gast.Expr, vars, fields map[stri
 	}
 	if !ok {
 		c.Violation(id, class, map[string]interface{}{
-			"summary":    fmt.Sprintf("%s  (vars=%v fields=%v noopt=%v): model %s, engine %s %s", script, describeFields(vars), describeFields(fields), noOpt, mo, o.Desc(), errText(o.Err)),
-			"script":     script,
-			"vars":       describeFields(vars),
-			"fields":     describeFields(fields),
+			"summary":     fmt.Sprintf("%s  (vars=%v fields=%v noopt=%v): model %s, engine %s %s", script, describeFields(vars), describeFields(fields), noOpt, mo, o.Desc(), errText(o.Err)),
+			"script":      script,
+			"vars":        describeFields(vars),
+			"fields":      describeFields(fields),
 			"no_optimize": noOpt,
-			"expected":   mo.String(),
-			"observed":   o.Desc(),
-			"engine_err": errText(o.Err),
+			"expected":    mo.String(),
+			"observed":    o.Desc(),
+			"engine_err":  errText(o.Err),
 		})
 	}
 }
